@@ -63,10 +63,11 @@ def run_rules(spec: Spec, model: Model, tier: str, seed: int) -> Collector:
                                 if tier == "thorough" else [])
     for rule in rules:
         rule(coll)
+    coll.floor_errors = []
     for rname, floor in spec.floors.items():
         n = coll.count(rule=rname)
         if n < floor:
-            raise AnalysisError(
+            coll.floor_errors.append(
                 f"rule {rname} matched {n} instances, below the floor of "
                 f"{floor} confirmed by hand (vacuous pass refused)")
     return coll
@@ -148,6 +149,14 @@ def main(argv=None) -> int:
         viol = [o for o in coll.obs if o.status == VIOLATION]
         new = [o for o in viol if o.key not in known_keys]
         old = [o for o in viol if o.key in known_keys]
+        # a rule that found fewer instances than confirmed by hand cannot
+        # certify anything (exit 2) -- unless a specific violation was found
+        # anyway, which is reported as such (the missing instances are then
+        # usually a consequence of the same change)
+        if coll.floor_errors and not new:
+            raise AnalysisError("; ".join(coll.floor_errors))
+        for fe in coll.floor_errors:
+            print("NOTE:", fe)
 
         if not args.no_evidence:
             write_evidence(prop, spec, coll, timer.wall(), new, old, extra)
